@@ -474,3 +474,16 @@ def run(index, rep, tier):
             rep.check("calc_node_root_distances" in cs and not other, "R17.14", f.qualname, "depth measured by another yardstick", fn_where(f, other[0] if other else None), "%s measures through calc_node_root_distances()" % name,
                       "Tree.%s %s: Node.distance_from_root() adds the seed node's own edge length while calc_node_root_distances() - which num_lineages_at and the stored root_distance use - puts the seed at 0, so with a root edge of 0.5 the 'maximum distance from the root' is 0.5 beyond the deepest tip and num_lineages_at(max_distance_from_root()) finds no lineage there" % (name, "calls `%s`" % norm(other[0])[:50] if other else "no longer calls calc_node_root_distances()"))
         rep.floor("R17.14", "tree-level depth queries", 3, n14)
+
+    # ---- R17.15 each vector is built from the quantity it is named after
+    with rep.section("R17.15"):
+        rep.rule("R17.15", "each vector is built from the quantity it is named after: in treemeasure, coalescence_ages is the internal-node view of node_ages (time before the present) and divergence_times the internal-node view of node_depths (distance from the root) - the two helpers have the same signature, so calling the wrong sibling type-checks, passes every test, and returns ages where depths are promised")
+        want15 = {"coalescence_ages": "node_ages", "divergence_times": "node_depths"}
+        n15 = 0
+        for fn_, callee in sorted(want15.items()):
+            f = index.function("dendropy.calculate.treemeasure." + fn_)
+            n15 += 1
+            cs = {call_name(c) for c in calls_in(f.node)} & set(want15.values())
+            rep.check(cs == {callee}, "R17.15", f.qualname, "built from the sibling quantity", fn_where(f), "%s is built from %s()" % (fn_, callee),
+                      "treemeasure.%s calls %s where %s() is the quantity it is documented to return: on `((A:1,B:1):1,C:2)` the depths of the internal nodes are [0, 1] and their ages [2, 1] - the function returns the one for the other" % (fn_, sorted(cs) or "none of the two helpers", callee))
+        rep.floor("R17.15", "internal-node views", 2, n15)
